@@ -1992,4 +1992,86 @@ theorem compiled_meaning_twin'_counterexample_dup :
   rw [h1, h2] at this
   cases this
 
+/-! ### the three statements that hold as written -/
+
+theorem needed_spec' (l : CNet) (hn : (l.nodes.map (·.name)).Nodup) :
+    (needed l).Nodup ∧
+    ∀ n ∈ needed l, (∃ x ∈ l.nodes, x.name = n ∧ x.op.isSome = true) ∧
+      ∃ o ∈ l.outputs, reaches (l.edges.filter (fun e => ((l.find e.src).map (·.output.isNone)).getD false))
+        l.nodes.length n o = true := by
+  constructor
+  · unfold needed
+    exact (hn.sublist ((List.filter_sublist).map _))
+  · intro n hmem
+    unfold needed at hmem
+    simp only [List.mem_map, List.mem_filter, Bool.and_eq_true, List.any_eq_true] at hmem
+    obtain ⟨x, ⟨hx, hop, o, ⟨ho, _⟩, hr⟩, rfl⟩ := hmem
+    exact ⟨⟨x, hx, rfl, hop⟩, o, ho, hr⟩
+
+theorem stochastic_observed_rejected' (env : Env) (s : Source) (outputs : List Nat) :
+    (observedDependsOnStochastic env s = true → compile env s outputs = .error .valueError) ∧
+    (observedDependsOnStochastic env s = false → ∃ c, compile env s outputs = .ok c) := by
+  constructor
+  · intro h; unfold compile; simp [h]
+  · intro h; unfold compile; simp [h]
+
+theorem instruction_edges_exact' (env : Env) (s : Source) (hwf : SourceWF env s) (x : SNode) (hx : x ∈ s.nodes) :
+    let es := (compileAll env s).2
+    ((⟨env.bs, x.name, .named env.kwBatchSize⟩ : Edge) ∈ es ↔ x.usesBatchSize = true) ∧
+    ((⟨env.mt, x.name, .named env.kwMeta⟩ : Edge) ∈ es ↔ x.usesMeta = true) ∧
+    ((⟨env.rs, x.name, .named env.kwRandomState⟩ : Edge) ∈ es ↔ x.stochastic = true) ∧
+    (∀ e ∈ es, e.dst = env.twin x.name → e.src ≠ env.bs ∧ e.src ≠ env.mt ∧ e.src ≠ env.rs) := by
+  have hI := hwf.instr_fresh
+  have hbs := hI env.bs (Or.inl rfl)
+  have hmt := hI env.mt (Or.inr (Or.inl rfl))
+  have hrs := hI env.rs (Or.inr (Or.inr rfl))
+  obtain ⟨d1, d2, d3⟩ := hwf.instr_distinct
+  intro es
+  refine ⟨⟨fun h => ?_, fun h => ?_⟩, ⟨fun h => ?_, fun h => ?_⟩, ⟨fun h => ?_, fun h => ?_⟩, ?_⟩
+  · rcases (mem_compileAll_edges env s _).1 h with h | ⟨y, hy, hp, he⟩ | ⟨y, hy, hp, e', he', he⟩ |
+      ⟨y, hy, hp, he⟩ | ⟨y, hy, hp, he⟩ | ⟨y, hy, hp, he⟩
+    · exact absurd (hwf.edges_in _ h).1 hbs.1
+    · simp only [Edge.mk.injEq] at he; exact absurd he.1.symm (hbs.2 y hy)
+    · simp only [Edge.mk.injEq] at he; exact absurd ⟨x, hx, he.2.1⟩ (hwf.twin_fresh y hy)
+    · simp only [Edge.mk.injEq] at he; rw [hwf.node_ext hx hy he.2.1]; exact hp
+    · simp only [Edge.mk.injEq] at he; exact absurd he.1 d1
+    · simp only [Edge.mk.injEq] at he; exact absurd he.1 d2
+  · exact (mem_compileAll_edges env s _).2 (Or.inr (Or.inr (Or.inr (Or.inl ⟨x, hx, h, rfl⟩))))
+  · rcases (mem_compileAll_edges env s _).1 h with h | ⟨y, hy, hp, he⟩ | ⟨y, hy, hp, e', he', he⟩ |
+      ⟨y, hy, hp, he⟩ | ⟨y, hy, hp, he⟩ | ⟨y, hy, hp, he⟩
+    · exact absurd (hwf.edges_in _ h).1 hmt.1
+    · simp only [Edge.mk.injEq] at he; exact absurd he.1.symm (hmt.2 y hy)
+    · simp only [Edge.mk.injEq] at he; exact absurd ⟨x, hx, he.2.1⟩ (hwf.twin_fresh y hy)
+    · simp only [Edge.mk.injEq] at he; exact absurd he.1.symm d1
+    · simp only [Edge.mk.injEq] at he; rw [hwf.node_ext hx hy he.2.1]; exact hp
+    · simp only [Edge.mk.injEq] at he; exact absurd he.1 d3
+  · exact (mem_compileAll_edges env s _).2 (Or.inr (Or.inr (Or.inr (Or.inr (Or.inl ⟨x, hx, h, rfl⟩)))))
+  · rcases (mem_compileAll_edges env s _).1 h with h | ⟨y, hy, hp, he⟩ | ⟨y, hy, hp, e', he', he⟩ |
+      ⟨y, hy, hp, he⟩ | ⟨y, hy, hp, he⟩ | ⟨y, hy, hp, he⟩
+    · exact absurd (hwf.edges_in _ h).1 hrs.1
+    · simp only [Edge.mk.injEq] at he; exact absurd he.1.symm (hrs.2 y hy)
+    · simp only [Edge.mk.injEq] at he; exact absurd ⟨x, hx, he.2.1⟩ (hwf.twin_fresh y hy)
+    · simp only [Edge.mk.injEq] at he; exact absurd he.1.symm d2
+    · simp only [Edge.mk.injEq] at he; exact absurd he.1.symm d3
+    · simp only [Edge.mk.injEq] at he; rw [hwf.node_ext hx hy he.2.1]; exact hp
+  · exact (mem_compileAll_edges env s _).2 (Or.inr (Or.inr (Or.inr (Or.inr (Or.inr ⟨x, hx, h, rfl⟩)))))
+  · intro e he hd
+    have huser : ∀ n, IsUser s n → n ≠ env.bs ∧ n ≠ env.mt ∧ n ≠ env.rs := fun n hn =>
+      ⟨fun h => hbs.1 (h ▸ hn), fun h => hmt.1 (h ▸ hn), fun h => hrs.1 (h ▸ hn)⟩
+    have htwin : ∀ y ∈ s.nodes, env.twin y.name ≠ env.bs ∧ env.twin y.name ≠ env.mt ∧ env.twin y.name ≠ env.rs :=
+      fun y hy => ⟨hbs.2 y hy, hmt.2 y hy, hrs.2 y hy⟩
+    rcases (mem_compileAll_edges env s _).1 he with h | ⟨y, hy, hp, rfl⟩ | ⟨y, hy, hp, e', he', rfl⟩ |
+      ⟨y, hy, hp, rfl⟩ | ⟨y, hy, hp, rfl⟩ | ⟨y, hy, hp, rfl⟩
+    · exact huser _ (hwf.edges_in _ h).1
+    · exact htwin y hy
+    · have he'' : e' ∈ s.edges := (List.mem_filter.1 he').1
+      obtain ⟨z, hz, hzn⟩ := (hwf.edges_in _ he'').1
+      dsimp only
+      split
+      · rw [← hzn]; exact htwin z hz
+      · exact huser _ ⟨z, hz, hzn⟩
+    · exact absurd ⟨y, hy, hd⟩ (hwf.twin_fresh x hx)
+    · exact absurd ⟨y, hy, hd⟩ (hwf.twin_fresh x hx)
+    · exact absurd ⟨y, hy, hd⟩ (hwf.twin_fresh x hx)
+
 end ElfiVerif.Compile
